@@ -23,6 +23,8 @@ def run(ctx):
     def bad(what, inp, obs):
         ctx.violations.append(dict(what=what, key=what, input=inp, observed=obs))
 
+    k7 = [e for e in core.known_findings(ID) if e["status"] == "known" and e.get("key") == "K7-standing-undersat-compressibility-pole"]
+    k7_hits = []
     for k in range(n):
         T, api, gg, rsi, pb = dom.oil_params(rng, edge=True)
         inp = dict(T=T, api=api, gg=gg, Rsi=rsi, pb=pb)
@@ -76,6 +78,20 @@ def run(ctx):
             bad("oil viscosity does not fall with pressure below the bubble point", inp, float(np.diff(mu[ps <= pb]).max()))
         if not (np.all(co > 0) and np.all(np.isfinite(co)) and np.all(mu > 0) and np.all(np.isfinite(mu))):
             bad("undersaturated compressibility / viscosity is not positive", inp, dict(co_min=float(co.min()), mu_min=float(mu.min())))
+        # the library's OTHER undersaturated-compressibility correlation (Standing's; unused by the package): positive and finite too -
+        # except next to its pole at p - p_b = 18117.9 psi, which is known finding K7
+        for p_u in [float(x) for x in np.linspace(pb, 2.5 * pb, 9)[1:]]:
+            ev += 1
+            try:
+                cs = float(oil.oil_compressibility_undersat_Standing(T, p_u, api, gg, rsi))
+                ok_u = math.isfinite(cs) and 0 < cs < 1e-2
+            except OverflowError:
+                cs, ok_u = "OverflowError", False
+            if not ok_u:
+                if k7 and p_u - pb >= 13000.0:
+                    k7_hits.append((T, api, gg, rsi, p_u))
+                else:
+                    bad("undersaturated compressibility (Standing's correlation) is not a positive finite number", dict(**inp, p=p_u, p_minus_pb=p_u - pb), cs)
         # the same clauses when the pressures come as an array (integer grids, float32, strided views): C12_arrays.v
         if k % 3 == 0 and pb > 60:
             grid = np.unique(np.concatenate([np.arange(15, int(2.5 * pb) + 1, max(1, int(pb) // 60)), [int(pb), int(pb) + 1]]))
@@ -155,6 +171,15 @@ def run(ctx):
     for g in goals:
         g["unfold"] = core.gen_names(GEN)
     core.cert_phase(ctx, goals, ["Gen_gas", "Gen_oil"])
+    if k7:
+        w7 = k7[0]["witness"]
+        try:
+            v7 = float(oil.oil_compressibility_undersat_Standing(w7["T"], w7["p"], w7["api"], w7["gg"], w7["Rsi"]))
+        except OverflowError:
+            v7 = float("inf")
+        if not (0 < v7 < 1e-2):
+            ctx.known_printed.append(k7[0]["line"])
+            ctx.notes.append(f"known finding K7 reproduced on its witness (value {v7}); {len(k7_hits)} sampled evaluations showed it")
     ctx.cov.update(evaluations=ev, distinct_nontrivial=n,
                    rule="oils from the box T 80..350, API 12..55, gas gravity 0.56..1.3, GOR 20..2500 with p_b > 50 (incl. box corners); "
                         "pressures 15 psia..2.5 p_b on a grid plus p_b and its two float neighbours")
